@@ -371,7 +371,7 @@ impl Family for Funds {
 }
 
 /// Control-flow family with reply handlers whose failure depends on the result they are given:
-/// failing variants are {always, iff the reply carries Ok, iff the reply carries Err}.
+/// failing variants are {always, iff the reply carries Ok, iff the reply carries Err, by a malformed response}.
 pub struct Cond {
     pub g: Grammar,
     pub lo: usize,
@@ -380,7 +380,7 @@ pub struct Cond {
 
 impl Cond {
     pub fn new(lo: usize, hi: usize) -> Cond {
-        Cond { g: Grammar::new(1, 3, 2, 2, hi), lo, hi }
+        Cond { g: Grammar::new(1, 4, 2, 2, hi), lo, hi }
     }
 }
 
@@ -406,6 +406,9 @@ impl Family for Cond {
             1 => nd.fail = true,
             2 => nd.fail_when = 1,
             3 => nd.fail_when = 2,
+            // fails not by returning an error but by returning a response the chain rejects (an
+            // attribute key with a leading underscore): a failure like any other
+            4 => nd.attrs.push(("_reserved".into(), "x".into())),
             _ => {}
         }
     }
